@@ -13,6 +13,11 @@
 (*     hand yields no data.                                                *)
 (* A Decode line aggregates all concrete alterations (every byte / bit of  *)
 (* the field) that refine one tamper class; counts per outcome class.      *)
+(* Classes keyid_sib / _ent / _rs / _peer / _own / _zero overwrite the     *)
+(* header key id with the id of another existing key (CryptoAbs.KidT);     *)
+(* rkid_swap exchanges the key ids of two receiver-specific MAC entries.   *)
+(* The driver emits such an alteration only if it changes the bytes        *)
+(* (n = 0 otherwise: nothing to judge).                                    *)
 (* Known deviation S10 (DATA padding makes unaligned protected payloads    *)
 (* undecodable) is reported as KNOWN only if KNOWN_S10=1, else as VIOL.    *)
 (***************************************************************************)
@@ -28,7 +33,7 @@ ToSet(s) == {s[i] : i \in DOMAIN s}
 Put(f, k, v) == [x \in DOMAIN f \cup {k} |-> IF x = k THEN v ELSE f[x]]
 Get(f, k) == IF k \in DOMAIN f THEN f[k] ELSE 0
 
-NoCfg == [lvl |-> "msg", kind |-> "gmac", oa |-> FALSE, k256 |-> FALSE, dir |-> "w2r"]
+NoCfg == [lvl |-> "msg", kind |-> "gmac", oa |-> FALSE, k256 |-> FALSE, dir |-> "w2r", other |-> "same"]
 
 TraceInit ==
   /\ l = 1 /\ run = 0 /\ cfg = NoCfg /\ senders = {}
@@ -69,7 +74,7 @@ Step ==
   /\ LET e == Rec[l] IN
      CASE e.ev = "Reset" ->
             /\ run' = e.run
-            /\ cfg' = [lvl |-> e.cfg.lvl, kind |-> e.cfg.kind, oa |-> e.cfg.oa, k256 |-> e.cfg.k256, dir |-> e.cfg.dir]
+            /\ cfg' = [lvl |-> e.cfg.lvl, kind |-> e.cfg.kind, oa |-> e.cfg.oa, k256 |-> e.cfg.k256, dir |-> e.cfg.dir, other |-> e.cfg.other]
             /\ senders' = ToSet(e.cfg.senders)
             /\ local' = {} /\ mpart' = {} /\ mep' = {} /\ dk' = <<>> /\ ct' = <<>> /\ viol' = {} /\ known' = {}
        [] e.ev = "RegLocal" ->
